@@ -9,6 +9,7 @@ package main
 import (
 	"fmt"
 	"go/token"
+	"go/types"
 	"strings"
 
 	"golang.org/x/tools/go/ssa"
@@ -107,6 +108,10 @@ func checkC07(w *World, r *Report) {
 
 	checkDivGuard(w, r, tm, tree)
 	checkAddrCanon(w, r, tm)
+	checkCoinsCtor(w, r, tm)
+	// a quantity rounded up, or a payment rounded down, makes a payment exceed its reservation: the refund is negative
+	// and constructing that coin panics inside block processing
+	r.Sub(checkC04, "RD-DIR")
 }
 
 // DIV-GUARD ---------------------------------------------------------------------
@@ -244,44 +249,76 @@ func priceTerm(w *World, tm *Terms, fn *ssa.Function, v ssa.Value, t *Term, dept
 // slicesOnlyHoldPrices: every store of a LegacyDec element in fn has the shape
 // LegacyMustNewDecFromStr(k) with k a key of a map whose keys are all field<Price>.String().
 func slicesOnlyHoldPrices(w *World, tm *Terms, fn *ssa.Function) bool {
-	fr := tm.Root(fn)
+	// every LegacyDec put into a slice by fn or by a helper it calls — by an element store or by append — is
+	// LegacyMustNewDecFromStr(k) with k a key of a map all of whose keys are Price.String() of a record
 	stores := 0
-	for _, b := range fn.Blocks {
-		for _, in := range b.Instrs {
-			st, ok := in.(*ssa.Store)
-			if !ok || !isNamed(st.Val.Type(), mathPath, "LegacyDec") {
-				continue
-			}
-			if _, ok := st.Addr.(*ssa.IndexAddr); !ok {
-				continue
-			}
-			stores++
-			t := tm.Of(fr, st.Val)
-			if !(t.Op == "call" && strings.HasSuffix(t.Name, ".LegacyMustNewDecFromStr") && len(t.Args) == 1) {
+	okElem := func(g *ssa.Function, fr *Frame, t *Term) bool {
+		if !(t.Op == "call" && strings.HasSuffix(t.Name, ".LegacyMustNewDecFromStr") && len(t.Args) == 1) {
+			return false
+		}
+		k := uncell(t.Args[0])
+		if k.Op != "mapkey" || len(k.Args) != 1 {
+			return false
+		}
+		m := uncell(k.Args[0])
+		mm, ok := m.V.(*ssa.MakeMap)
+		if m.Op != "makemap" || !ok {
+			return false
+		}
+		ks, _ := mapUpdatesOf(tm, fr, mm)
+		if len(ks) == 0 {
+			return false
+		}
+		for _, kt := range ks {
+			if !(kt.Op == "call" && strings.HasSuffix(kt.Name, ".LegacyDec.String") && len(kt.Args) == 1 && isField(kt.Args[0], "Price")) {
 				return false
 			}
-			k := t.Args[0]
-			if k.Op != "mapkey" {
-				return false
-			}
-			// all MapUpdates of that map in fn use Price.String() keys
-			mapv := k.Args[0].V
-			okKeys, n := true, 0
-			for _, b2 := range fn.Blocks {
-				for _, in2 := range b2.Instrs {
-					mu, ok := in2.(*ssa.MapUpdate)
-					if !ok || mu.Map != mapv {
+		}
+		return true
+	}
+	for _, g := range sortedFns(w.reachableFrom(fn)) {
+		if p := pkgOf(g); p == nil || !w.isRepoPkg(p) || w.isGenerated(g) {
+			continue
+		}
+		fr := tm.Root(g)
+		for _, b := range g.Blocks {
+			for _, in := range b.Instrs {
+				switch x := in.(type) {
+				case *ssa.Store:
+					if !isNamed(x.Val.Type(), mathPath, "LegacyDec") {
 						continue
 					}
-					n++
-					kt := tm.Of(fr, mu.Key)
-					if !(kt.Op == "call" && strings.HasSuffix(kt.Name, ".LegacyDec.String") && len(kt.Args) == 1 && isField(kt.Args[0], "Price")) {
-						okKeys = false
+					ia, isIdx := x.Addr.(*ssa.IndexAddr)
+					if !isIdx {
+						continue
+					}
+					if al, isAlloc := ia.X.(*ssa.Alloc); isAlloc && al.Comment == "varargs" {
+						continue // the argument array of an append, judged at the append
+					}
+					stores++
+					if !okElem(g, fr, tm.Of(fr, x.Val)) {
+						return false
+					}
+				case *ssa.Call:
+					bi, isB := x.Call.Value.(*ssa.Builtin)
+					if !isB || bi.Name() != "append" || len(x.Call.Args) != 2 {
+						continue
+					}
+					sl, isSlice := x.Type().Underlying().(*types.Slice)
+					if !isSlice || !isNamed(sl.Elem(), mathPath, "LegacyDec") {
+						continue
+					}
+					es, ok := listElems(w, tm, tm.OperandAt(fr, x, x.Call.Args[1]), 0)
+					if !ok {
+						return false
+					}
+					for _, e := range es {
+						stores++
+						if !okElem(g, fr, e.t) {
+							return false
+						}
 					}
 				}
-			}
-			if !okKeys || n == 0 {
-				return false
 			}
 		}
 	}
